@@ -16,7 +16,9 @@ import (
 type site struct {
 	kind   string // direct | return | defer | deferGuarded(<cond>)
 	via    string // Close | Stop | recv | close | send
-	cond   string
+	cond   string // canonical condition the site (for a deferred literal: the defer statement) stands under
+	g      guard  // the same, structurally
+	onErr  bool   // a deferred site guarded by `<named error result> != nil` and by nothing else
 	inLoop bool
 	pos    token.Pos
 }
@@ -80,7 +82,7 @@ type exit struct {
 
 type unreleased struct {
 	early bool
-	desc  string
+	desc  step
 	line  int
 }
 
@@ -97,10 +99,11 @@ type engine struct {
 	out       map[string]bool // closed stored returned handed leakErr leakOk
 	where     []string
 	sites     []site
-	leakOn    []string
+	leakOn    []step
 	leakLines []int
-	leakOk    []string
-	errAfter  []string
+	leakOk    []step
+	errAfter  []step
+	places    []apath // fields of local objects / slots of local collections the value was put into
 	unknowns  []string
 	unrel     []unreleased
 	preDefers []*ast.DeferStmt
@@ -194,7 +197,7 @@ func (e *engine) atExit(st state, r *ast.ReturnStmt) {
 		if st.deferred || (st.defErr && e.isErrorReturn(st, r)) {
 			return
 		}
-		e.unrel = append(e.unrel, unreleased{early: !e.isFinal(r), desc: e.a.exitDesc(r), line: e.line(r)})
+		e.unrel = append(e.unrel, unreleased{early: !e.isFinal(r), desc: e.a.exitStep(r), line: e.line(r)})
 		return
 	}
 	if st.deferred {
@@ -209,7 +212,7 @@ func (e *engine) atExit(st state, r *ast.ReturnStmt) {
 	if st.stored {
 		e.out["stored"] = true
 		if errRet {
-			e.errAfter = addUnique(e.errAfter, e.a.exitDesc(r))
+			e.errAfter = addStep(e.errAfter, e.a.exitStep(r))
 		}
 		return
 	}
@@ -223,24 +226,26 @@ func (e *engine) atExit(st state, r *ast.ReturnStmt) {
 	}
 	if errRet {
 		e.out["leakErr"] = true
-		e.leakOn = addUnique(e.leakOn, e.a.exitDesc(r))
+		e.leakOn = addStep(e.leakOn, e.a.exitStep(r))
 		e.leakLines = append(e.leakLines, e.line(r))
 	} else {
 		e.out["leakOk"] = true
-		e.leakOk = addUnique(e.leakOk, e.a.exitDesc(r))
+		e.leakOk = addStep(e.leakOk, e.a.exitStep(r))
 	}
 }
 
 // no holder is left on a path that goes on
-func (e *engine) lost(why string) {
+func (e *engine) lost(why string, at ast.Node) {
 	e.out["leakOk"] = true
-	e.leakOk = addUnique(e.leakOk, why)
+	pos := endPos
+	if at != nil {
+		pos = at.Pos()
+	}
+	e.leakOk = addStep(e.leakOk, step{why, pos})
 }
 
 // ---------------------------------------------------------------------------------------------------------
 // what an expression does to the resource
-
-var neverCarry = map[string]bool{"fmt": true, "errors": true, "log": true}
 
 func (e *engine) matches(p apath, st state) bool {
 	for _, h := range st.hold {
@@ -281,13 +286,14 @@ func (e *engine) carries(x ast.Expr, st state) bool {
 		if _, isRel := e.releaseCall(v, st); isRel {
 			return false
 		}
-		if q, _ := e.a.qualified(v.Fun); q != "" {
-			if i := strings.Index(q, "."); i > 0 && neverCarry[q[:i]] {
+		if tv, ok := e.a.info.Types[v.Fun]; ok && tv.IsType() {
+			// a conversion carries its operand
+		} else if ok && tv.IsBuiltin() {
+			if !e.a.isBuiltin(v, "append") {
 				return false
 			}
-		}
-		if tv, ok := e.a.info.Types[v.Fun]; ok && tv.IsBuiltin() && !e.a.isBuiltin(v, "append") {
-			return false
+		} else if e.a.cn.pureCall(v) {
+			return false // formatting, logging, error wrapping …: decided by WHAT is called (canon.pureCall)
 		}
 		for _, arg := range v.Args {
 			if e.carries(arg, st) {
@@ -321,7 +327,57 @@ func (e *engine) releaseCall(c *ast.CallExpr, st state) (string, bool) {
 			return "close", true
 		}
 	}
-	return "", false
+	return e.helperRelease(c, st)
+}
+
+// c calls a function / method of the module whose body (one level, no further helpers) does X.Close() / X.Stop() on an
+// operand of the call — `closeQuietly(x)`, `w.closeFiles()` — unconditionally (a nil check of X itself does not count as a
+// condition).  Anything conditional inside a helper is NOT taken for a release: the row then shows the value as left open.
+func (e *engine) helperRelease(c *ast.CallExpr, st state) (string, bool) {
+	if len(st.hold) == 0 {
+		return "", false
+	}
+	if _, isLit := unparen(c.Fun).(*ast.FuncLit); isLit {
+		return "", false
+	}
+	h := e.a.helperOf(c)
+	if h == nil {
+		return "", false
+	}
+	bind := e.a.helperBinding(c, h)
+	if len(bind) == 0 {
+		return "", false
+	}
+	ha := e.a.helperAnalyzer(h)
+	via := ""
+	ast.Inspect(h.fd.Body, func(n ast.Node) bool {
+		switch x := n.(type) {
+		case *ast.GoStmt:
+			return false
+		case *ast.FuncLit:
+			call, ok := ha.parents[x].(*ast.CallExpr)
+			return ok && call.Fun == ast.Expr(x) // called in place or deferred
+		case *ast.CallExpr:
+			s, ok := x.Fun.(*ast.SelectorExpr)
+			if !ok || len(x.Args) != 0 || (s.Sel.Name != "Close" && s.Sel.Name != "Stop") {
+				return true
+			}
+			p, ok := ha.pathOf(s.X)
+			if !ok {
+				return true
+			}
+			cp, ok := bind[p.root]
+			if !ok {
+				return true
+			}
+			q := apath{cp.root, append(append([]string{}, cp.segs...), p.segs...)}
+			if e.matches(q, st) && ha.condsOf(x, h.fd, []apath{p}).text == "" && via == "" {
+				via = s.Sel.Name
+			}
+		}
+		return true
+	})
+	return via, via != ""
 }
 
 // release events inside n (function literals are entered only when `lits` is set); stop = the node conditions are
@@ -340,21 +396,21 @@ func (e *engine) findReleases(n ast.Node, st state, lits bool, stop ast.Node) []
 			return lits
 		case *ast.CallExpr:
 			if via, ok := e.releaseCall(x, st); ok {
-				out = append(out, site{via: via, pos: x.Pos(), cond: strings.Join(e.a.condsOf(x, stop, e.skipPaths(st)), " && "),
-					inLoop: e.a.inLoop(x, stop)})
+				g := e.a.condsOf(x, stop, e.skipPaths(st))
+				out = append(out, site{via: via, pos: x.Pos(), cond: g.text, g: g, inLoop: e.a.inLoop(x, stop)})
 			}
 		case *ast.UnaryExpr:
 			if e.rel && x.Op == token.ARROW {
 				if p, ok := e.a.pathOf(x.X); ok && e.matches(p, st) {
-					out = append(out, site{via: "recv", pos: x.Pos(), cond: strings.Join(e.a.condsOf(x, stop, e.skipPaths(st)), " && "),
-						inLoop: e.a.inLoop(x, stop)})
+					g := e.a.condsOf(x, stop, e.skipPaths(st))
+					out = append(out, site{via: "recv", pos: x.Pos(), cond: g.text, g: g, inLoop: e.a.inLoop(x, stop)})
 				}
 			}
 		case *ast.SendStmt:
 			if e.rel {
 				if p, ok := e.a.pathOf(x.Chan); ok && e.matches(p, st) {
-					out = append(out, site{via: "send", pos: x.Pos(), cond: strings.Join(e.a.condsOf(x, stop, e.skipPaths(st)), " && "),
-						inLoop: e.a.inLoop(x, stop)})
+					g := e.a.condsOf(x, stop, e.skipPaths(st))
+					out = append(out, site{via: "send", pos: x.Pos(), cond: g.text, g: g, inLoop: e.a.inLoop(x, stop)})
 				}
 			}
 		}
@@ -407,14 +463,14 @@ func (e *engine) effects(n ast.Node, st state, kindName string) (state, bool) {
 				// handed to a method of the receiver / of a parameter
 				if sel := e.a.info.Selections[s]; sel != nil && sel.Kind() == types.MethodVal {
 					st.stored = true
-					e.where = addUnique(e.where, calleeName(c.Fun))
+					e.where = addUnique(e.where, e.a.cn.callee(c))
 					return false
 				}
 			}
 		}
 		if e.a.acquires(c) {
 			e.out["handed"] = true
-			e.where = addUnique(e.where, calleeName(c.Fun))
+			e.where = addUnique(e.where, e.a.cn.callee(c))
 			alive = false
 			return false
 		}
@@ -440,11 +496,11 @@ func (e *engine) deferEffects(d *ast.DeferStmt, st state) state {
 	return st
 }
 
-// every site is guarded by `<named error result> != nil` and by nothing else
+// every site is guarded by `<named error result> != nil` and by nothing else (decided on the condition's structure and
+// the identity of the variable, not on its text)
 func (e *engine) onErrorOnly(rs []site) bool {
-	named := e.a.namedErrorResult(e.fn)
 	for _, s := range rs {
-		if named == nil || s.kind != "deferGuarded("+named.Name()+" != nil)" {
+		if !s.onErr {
 			return false
 		}
 	}
@@ -455,14 +511,16 @@ func (e *engine) onErrorOnly(rs []site) bool {
 func (e *engine) deferSites(d *ast.DeferStmt, st state) []site {
 	var rs []site
 	if lit, ok := d.Call.Fun.(*ast.FuncLit); ok {
+		named := e.a.namedErrorResult(e.fn)
 		for _, s := range e.findReleases(lit.Body, st, true, lit) {
-			outer := strings.Join(e.a.condsOf(d, e.fn, e.skipPaths(st)), " && ")
+			outer := e.a.condsOf(d, e.fn, e.skipPaths(st))
 			if s.cond != "" {
 				s.kind = "deferGuarded(" + s.cond + ")"
+				s.onErr = e.a.guardIsNonNilOf(s.g, named)
 			} else {
 				s.kind = "defer"
 			}
-			s.cond = outer
+			s.cond, s.g = outer.text, outer
 			s.inLoop = s.inLoop || e.a.inLoop(d, e.fn)
 			rs = append(rs, s)
 		}
@@ -531,7 +589,7 @@ func (e *engine) assign(lhs, rhs []ast.Expr, st state, at ast.Node) (state, bool
 			}
 			if e.a.outlives(lp) {
 				n.stored = true
-				e.where = addUnique(e.where, exprString(l))
+				e.where = addUnique(e.where, e.a.placeName(lp))
 				// a deferred statement registered earlier (in a block this statement belongs to) may give the stored value
 				// back when — and only when — the function returns an error: `defer func() { if err != nil { X.f.Close() } }()`
 				// (SSTableStreamWriter.Open since 3b4867f).  Anything else a deferred statement does with the field is ignored.
@@ -550,6 +608,9 @@ func (e *engine) assign(lhs, rhs []ast.Expr, st state, at ast.Node) (state, bool
 				}
 				continue
 			}
+			if len(target.segs) > 0 {
+				e.places = append(e.places, target)
+			}
 			n = n.with(target)
 			continue
 		}
@@ -566,7 +627,7 @@ func (e *engine) assign(lhs, rhs []ast.Expr, st state, at ast.Node) (state, bool
 		n.hold = keep
 	}
 	if len(n.hold) == 0 && !n.stored && !n.deferred && !n.defErr && !e.rel {
-		e.lost("overwritten at line " + itoa(e.line(at)))
+		e.lost("overwritten", at)
 		return n, false
 	}
 	if len(n.hold) > len(st.hold) && !n.deferred && !e.rel {
@@ -672,7 +733,7 @@ func (e *engine) endScope(xs []exit, objs []types.Object) []exit {
 				}
 			}
 			if len(keep) == 0 && len(st.hold) > 0 && !st.stored && !st.deferred {
-				e.lost("its variable goes out of scope")
+				e.lost("its variable goes out of scope", nil)
 				continue
 			}
 			st.hold = keep
